@@ -521,11 +521,16 @@ func (w *worker[T, JobType]) stopAndRemoveAllWorkers() {
 }
 
 func (w *worker[T, JobType]) start() error {
-	if w.IsRunning() {
+	// Every Bind*/With* call ends here. Wake the event loop in any case: the queue that was
+	// just bound may already hold jobs.
+	defer w.notifyToPullNextJobs()
+
+	// Only a worker that has not been started yet (or was reset by Restart) is started.
+	// Binding another queue to a paused or stopped worker must not resume it.
+	if w.status.Load() != initiated {
 		return ErrRunningWorker
 	}
 
-	defer w.notifyToPullNextJobs()
 	defer w.status.Store(running)
 
 	w.goEventLoop()
